@@ -3,8 +3,8 @@
    positive, nat stay Coq datatypes. No Extract Constant of our own. *)
 Require Extraction.
 Require ExtrOcamlBasic.
-From Lospan Require Import Base.Bytes Base.AES Base.Outcome Gen.Consts Model.CMAC Model.FrameTypes Model.Crypto Model.MacCmd Model.Frame Model.Join Model.Store Model.Server Model.Gateway Model.Router Model.Keygen
-  Spec.RFC4493 Spec.MacLayout Spec.LoRaFrame Spec.RefDevice Spec.AbsRouter.
+From Lospan Require Import Base.Bytes Base.AES Base.Outcome Gen.Consts Model.CMAC Model.FrameTypes Model.Crypto Model.MacCmd Model.Frame Model.Join Model.Store Model.Server Model.Gateway Model.Router Model.Keygen Model.Codec Model.RegistryTypes Model.Registry Model.Api
+  Spec.RFC4493 Spec.MacLayout Spec.LoRaFrame Spec.RefDevice Spec.AbsRouter Spec.AbsRegistry.
 Extraction Language OCaml.
 Extraction "lospan_model.ml"
   aes_enc aes_dec aescmac rfc4493 frame_crypt payload_crypt data_mic buffer_mic
@@ -17,4 +17,5 @@ Extraction "lospan_model.ml"
   gw_unmarshal gw_marshal gw_step encode_and_send key_present lookup_frequency authorised
   rrun expected expected_closed
   astep eui_of exhausted
+  c_run c_empty a_run a_empty c_step a_step mixed_run api_state eui_to_int64 eui_from_int64 devaddr_str devaddr_from_str eui_str eui_from_str key_str key_from_str b64_enc b64_dec hex_enc hex_dec
   ref_uplink ref_on_downlink ref_join_request ref_on_join_accept ref_mic ref_crypt mic4.
